@@ -2,3 +2,4 @@ import RtVerif.Base.Bytes
 import RtVerif.Base.Verdict
 import RtVerif.Gen.Facts
 import RtVerif.Model.C07
+import RtVerif.Model.C05
